@@ -59,6 +59,10 @@ pub enum JsonLdError {
         error: iref::Error,
     },
 
+    /// The JSON-LD processor produced a language tag that Sophia does not accept
+    #[error("{0}")]
+    InvalidLanguageTag(#[from] sophia_api::term::language_tag::InvalidLanguageTag),
+
     /// An UTF-8 error was encountered while parsing from a [`BufRead`](std::io::BufRead)
     #[error("{0}")]
     Utf8(#[from] std::string::FromUtf8Error),
